@@ -11,7 +11,7 @@ func init() {
 		Explanation: "Decides the structural clauses of C01, not the group-theoretic one: (1) for the five scalar-multiplication entry points the receiver's incoming value is never read on any CFG path — including the zero-iteration path of each range loop, which is the n=0 call — every normal return returns the receiver, and every local accumulator/table of a type whose zero value is invalid is written before it is read; (2) with q/A/points[i] aliased to the receiver no input is read after the first receiver write (R-ALIAS). NOT decided: that the double-and-add/comb loops compute Σ[k_i]P_i (induction over the group law), table contents (i+1)Q, NAF recoding, torsion behaviour.",
 		Assumptions: []string{"an incoming-value read of the receiver is a dependence on it: no later operation masks it"},
 		TrustedBase: trustedCommon,
-		Floors:      []report.Floor{{Rule: "R-INIT", Min: 2 * 20}, {Rule: "R-ALIAS", Min: 2 * 8}, {Rule: "R-FRESH", Min: 2 * 5}},
+		Floors:      []report.Floor{{Rule: "R-INIT", Min: 24}, {Rule: "R-ALIAS", Min: 9}, {Rule: "R-FRESH", Min: 6}},
 		Build: func(c *Ctx) {
 			for _, cfg := range c.Configs() {
 				a := c.Eff(cfg)
@@ -40,7 +40,7 @@ func init() {
 		Explanation: "Decides necessary structural conditions of the validity invariant, not the invariant: (1) no exported operation reads a receiver's incoming coordinates and no local Point/projective/table object is read before it is written (a zero-value store is not a definition) — 'accumulators start from the identity' in the form a CFG can show; (2) the only exported functions that build a Point from raw data are SetBytes and SetExtendedCoordinates, whose receiver writes are control-dependent on their validity predicate and atomic. NOT decided: preservation of the curve equation and of Z≠0 by the formulas (completeness of the addition law is number theory).",
 		TrustedBase: trustedCommon,
 		Exceptions:  []report.Exception{swapInit},
-		Floors:      []report.Floor{{Rule: "R-INIT", Min: 2 * 70}, {Rule: "R-CTOR", Min: 2 * 14}},
+		Floors:      []report.Floor{{Rule: "R-INIT", Min: 84}, {Rule: "R-CTOR", Min: 16}},
 		Build: func(c *Ctx) {
 			for _, cfg := range c.Configs() {
 				a := c.Eff(cfg)
